@@ -141,3 +141,41 @@ unsafe extern "C" {
     #[link_name = "dup2"]
     fn libc_dup2(a: i32, b: i32) -> i32;
 }
+
+/// Descriptors currently open in this process.
+pub fn open_fds() -> std::collections::BTreeSet<i32> {
+    let mut s = std::collections::BTreeSet::new();
+    if let Ok(rd) = std::fs::read_dir("/proc/self/fd") {
+        for e in rd.flatten() {
+            if let Some(n) = e.file_name().to_str().and_then(|x| x.parse::<i32>().ok()) {
+                s.insert(n);
+            }
+        }
+    }
+    // the directory handle used for the listing shows up in it; drop whatever is closed by now
+    unsafe extern "C" {
+        fn fcntl(fd: i32, cmd: i32, ...) -> i32;
+    }
+    s.retain(|fd| unsafe { fcntl(*fd, 1) } != -1);
+    s
+}
+
+/// Close every descriptor that is not in `keep`. Used after a run that simulated process death by
+/// forgetting engine handles (their `File`s are never dropped, so nothing else will close them and
+/// nothing can close them twice); without this a worker runs out of descriptors after ~1500 runs.
+pub fn close_fds_except(keep: &std::collections::BTreeSet<i32>) -> u64 {
+    unsafe extern "C" {
+        fn close(fd: i32) -> i32;
+    }
+    let mut n = 0;
+    for fd in open_fds() {
+        if !keep.contains(&fd) {
+            // the read_dir handle itself is already gone by now (open_fds returned)
+            unsafe {
+                close(fd);
+            }
+            n += 1;
+        }
+    }
+    n
+}
